@@ -17,6 +17,9 @@
 #include <AIToolbox/MDP/Model.hpp>
 #include <AIToolbox/MDP/SparseModel.hpp>
 #include <AIToolbox/MDP/Policies/Policy.hpp>
+#include <AIToolbox/MDP/Policies/QGreedyPolicy.hpp>
+#include <AIToolbox/MDP/Policies/QSoftmaxPolicy.hpp>
+#include <AIToolbox/MDP/Policies/EpsilonPolicy.hpp>
 #include <AIToolbox/POMDP/Model.hpp>
 #include <AIToolbox/POMDP/SparseModel.hpp>
 #include <AIToolbox/POMDP/Policies/Policy.hpp>
@@ -155,10 +158,18 @@ static void fillMDP(Rng & r, M::Model & m, int style) {
     AI::Matrix3D T; for (size_t a = 0; a < m.getA(); ++a) T.push_back(genProbMat(r, m.getS(), m.getS(), style));
     m.setTransitionFunction(T); m.setRewardFunction(genMat(r, m.getS(), m.getA(), style, false)); m.setDiscount(genDiscount(r, style));
 }
+// explicitly stored zeros and uncompressed storage (entries inserted after the build): what coeffRef() / record() leave
+// behind; the writers must count and emit exactly what the InnerIterator visits
+static void addExplicitZeros(Rng & r, AI::SparseMatrix2D & m) {
+    if (!r.coin(1, 3)) return;
+    for (int k = 0; k < 3; ++k) m.coeffRef(r.below(m.rows()), r.below(m.cols())) += 0.0;
+    if (r.coin()) m.makeCompressed();
+    std::printf("#stat sparse_explicit_zeros:%s 1\n", m.isCompressed() ? "compressed" : "uncompressed");
+}
 static void fillMDP(Rng & r, M::SparseModel & m, int style) {
-    AI::SparseMatrix3D T; for (size_t a = 0; a < m.getA(); ++a) T.push_back(genProbMat(r, m.getS(), m.getS(), style).sparseView());
+    AI::SparseMatrix3D T; for (size_t a = 0; a < m.getA(); ++a) { T.push_back(genProbMat(r, m.getS(), m.getS(), style).sparseView()); addExplicitZeros(r, T.back()); }
     m.setTransitionFunction(T);
-    AI::SparseMatrix2D R = genMat(r, m.getS(), m.getA(), style, true).sparseView();
+    AI::SparseMatrix2D R = genMat(r, m.getS(), m.getA(), style, true).sparseView(); addExplicitZeros(r, R);
     m.setRewardFunction(R); m.setDiscount(genDiscount(r, style));
 }
 template <class T> struct Gen;
@@ -174,7 +185,7 @@ template <class MM> struct Gen<PO::Model<MM>> {
 template <class MM> struct Gen<PO::SparseModel<MM>> {
     static PO::SparseModel<MM> make(Rng & r, Shape sh, int st) {
         PO::SparseModel<MM> m(sh.O, sh.S, sh.A); fillMDP(r, static_cast<MM &>(m), st);
-        AI::SparseMatrix3D Ob; for (size_t a = 0; a < sh.A; ++a) Ob.push_back(genProbMat(r, sh.S, sh.O, st).sparseView());
+        AI::SparseMatrix3D Ob; for (size_t a = 0; a < sh.A; ++a) { Ob.push_back(genProbMat(r, sh.S, sh.O, st).sparseView()); addExplicitZeros(r, Ob.back()); }
         m.setObservationFunction(Ob); return m;
     }
 };
@@ -205,10 +216,10 @@ template <> struct Gen<M::SparseExperience> {
             for (size_t i = 0; i < n; ++i) e.record(r.below(sh.S), r.below(sh.A), r.below(sh.S), genReward(r, st == 0 ? 0 : (r.coin() ? 0 : 1)));
         } else {
             AI::SparseTable3D v;
-            for (size_t a = 0; a < sh.A; ++a) { AI::SparseTable2D t(sh.S, sh.S); for (size_t i = 0; i < sh.S; ++i) for (size_t j = 0; j < sh.S; ++j) if (r.coin(1, 3)) t.insert(i, j) = 1 + genCount(r, st); t.makeCompressed(); v.push_back(t); }
+            for (size_t a = 0; a < sh.A; ++a) { AI::SparseTable2D t(sh.S, sh.S); for (size_t i = 0; i < sh.S; ++i) for (size_t j = 0; j < sh.S; ++j) if (r.coin(1, 3)) t.insert(i, j) = r.coin(1, 8) ? 0 : 1 + genCount(r, st); if (r.coin()) t.makeCompressed(); v.push_back(t); }
             e.setVisitsTable(v);
-            AI::SparseMatrix2D R = genMat(r, sh.S, sh.A, st, true).sparseView(); e.setRewardMatrix(R);
-            AI::SparseMatrix2D m2 = genMat(r, sh.S, sh.A, st, true).cwiseAbs().sparseView(); e.setM2Matrix(m2);
+            AI::SparseMatrix2D R = genMat(r, sh.S, sh.A, st, true).sparseView(); addExplicitZeros(r, R); e.setRewardMatrix(R);
+            AI::SparseMatrix2D m2 = genMat(r, sh.S, sh.A, st, true).cwiseAbs().sparseView(); addExplicitZeros(r, m2); e.setM2Matrix(m2);
         }
         return e;
     }
@@ -216,8 +227,20 @@ template <> struct Gen<M::SparseExperience> {
 template <> struct Gen<AI::Vector> {
     static AI::Vector make(Rng & r, Shape sh, int st) { AI::Vector v(sh.S); for (size_t i = 0; i < sh.S; ++i) v[i] = genVal(r, st); return v; }
 };
+// MDP policies as the library's own policy classes produce them (`operator<<` takes any PolicyInterface and writes its
+// getPolicy() matrix): greedy with ties (1/k entries), softmax (irrational probabilities), epsilon mixtures
 template <> struct Gen<M::Policy> {
-    static M::Policy make(Rng & r, Shape sh, int st) { return M::Policy(genProbMat(r, sh.S, sh.A, st)); }
+    static M::Policy make(Rng & r, Shape sh, int st) {
+        if (st == 0 || r.coin()) return M::Policy(genProbMat(r, sh.S, sh.A, st));
+        M::QFunction q(sh.S, sh.A);
+        for (size_t s = 0; s < sh.S; ++s) for (size_t a = 0; a < sh.A; ++a) q(s, a) = (double)r.range(-3, 3) / 3.0;
+        std::printf("#stat mpol_from_policy_class 1\n");
+        switch (r.below(3)) {
+            case 0: { M::QGreedyPolicy g(q); return M::Policy(g); }
+            case 1: { M::QSoftmaxPolicy g(q, 0.7); return M::Policy(g); }
+            default: { M::QGreedyPolicy g(q); M::EpsilonPolicy e(g, 0.3); return M::Policy(e); }
+        }
+    }
 };
 static PO::ValueFunction genVF(Rng & r, Shape sh, int st, size_t H) {
     auto vf = PO::makeValueFunction(sh.S);
@@ -302,13 +325,38 @@ template <class T> static int loadInto(T & dest, const std::string & text, std::
     return 0;
 }
 
-static long g_good = 0, g_fail = 0, g_threw = 0;
-// outcome tokens: f/F = failbit with destination unchanged/changed, t/T likewise for an exception, g <dump> = loaded
+// the same load on a stream that reports failures by exception (`is.exceptions(failbit | badbit)`): every
+// `is.setstate(failbit)` / failed extraction inside the readers now leaves through a throw (other exits than in the
+// plain mode).  1 = ios_base::failure, 2 = another exception, 0 = loaded
+template <class T> static int loadIntoEx(T & dest, const std::string & text) {
+    std::istringstream is(text);
+    is.exceptions(std::ios::failbit | std::ios::badbit);
+    try { readFrom(is, dest); } catch (const std::ios_base::failure &) { return 1; } catch (const std::exception &) { return 2; }
+    return is.fail() ? 4 : 0;
+}
+
+static long g_good = 0, g_fail = 0, g_threw = 0, g_exmode = 0, g_nonfinite = 0;
+static bool g_exceptionMode = true;
+// outcome tokens: f/F = failbit with destination unchanged/changed, t/T likewise for an exception, g <dump> = loaded;
+// X = the load on an exception-reporting stream ended differently (signal class or destination bits)
 template <class T> static void outcome(Line & l, const T & d0, const std::string & d0bits, const std::string & text) {
     T dest = cloneOf(d0);
     std::string rem;
     int sig = loadInto(dest, text, &rem);
-    if (sig == 0) { ++g_good; l << "g" << hexOf(rem) << exactOf(dest); return; }
+    if (g_exceptionMode) {
+        T dest2 = cloneOf(d0);
+        int sig2 = loadIntoEx(dest2, text);
+        ++g_exmode;
+        if (sig2 != sig || bitsOf(dest2) != bitsOf(dest)) { l << "X" << (size_t)sig << (size_t)sig2; return; }
+    }
+    if (sig == 0) {
+        ++g_good;
+        // duplicate triplets are summed by setFromTriplets: two DBL_MAX entries moved onto the same cell give inf.
+        // Non-finite values are outside the property's quantifier (and have no exact token): outcome not judged
+        const std::string dump = exactOf(dest);
+        if (dump.find("inf") != std::string::npos || dump.find("nan") != std::string::npos) { ++g_nonfinite; l << "N"; return; }
+        l << "g" << hexOf(rem) << dump; return;
+    }
     bool same = bitsOf(dest) == d0bits;
     if (sig == 1) { ++g_fail; l << (same ? "f" : "F"); } else { ++g_threw; l << (same ? "t" : "T"); }
 }
@@ -318,10 +366,18 @@ static std::vector<std::string> splitTokens(const std::string & s) {
 }
 static std::string joinTokens(const std::vector<std::string> & t) { std::string s; for (auto & x : t) { s += x; s += '\n'; } return s; }
 
-static const char * kCorr[] = {"del", "dup", "neg1", "big", "nan", "abc", "hugeidx", "hugeidx2", "plus1"};
-static const int kNCorr = 9;
+static const char * kCorr[] = {"del", "dup", "neg1", "big", "nan", "abc", "hugeidx", "hugeidx2", "plus1", "flip", "zero", "cnegA", "cnegB"};
+static const int kNCorr = 13;
 static std::vector<std::string> corruptTokens(std::vector<std::string> t, size_t i, int c) {
     switch (c) {
+        // sign flip: a probability / reward / count with the other sign (the negativity clause of every isProbability)
+        case 9: t[i] = (t[i][0] == '-') ? t[i].substr(1) : "-" + t[i]; break;
+        // the boundary of setDiscount's guard, an empty count, an all-zero row
+        case 10: t[i] = "0"; break;
+        // compensated negative: two entries 1.5 and -0.5, neighbours in a dense row (A) or in consecutive sparse
+        // triplets (B): wherever the two replaced values summed to 1 the row still sums to 1 but is no distribution
+        case 11: t[i] = "1.5"; if (i + 1 < t.size()) t[i + 1] = "-0.5"; break;
+        case 12: t[i] = "1.5"; if (i + 3 < t.size()) t[i + 3] = "-0.5"; break;
         case 0: t.erase(t.begin() + i); break;
         case 1: t.insert(t.begin() + i, t[i]); break;
         case 2: t[i] = "-1"; break;
@@ -359,7 +415,9 @@ template <class T> static void runObject(const std::string & kind, Rng & rng, Sh
     }
     {   // every truncation point
         Line l; l << "C17" << "trunc" << head << "|" << hexOf(text) << "|" << exactOf(x) << "|" << text.size();
-        for (size_t k = 0; k < text.size(); ++k) outcome(l, d0, d0bits, text.substr(0, k));
+        // the exception-mode repetition on every third prefix only (the sweep is quadratic in the text length)
+        for (size_t k = 0; k < text.size(); ++k) { g_exceptionMode = (k % 3 == 0); outcome(l, d0, d0bits, text.substr(0, k)); }
+        g_exceptionMode = true;
         l.emit();
         std::printf("#stat trunc_points %zu\n", text.size());
     }
@@ -379,6 +437,28 @@ template <class T> static void runObject(const std::string & kind, Rng & rng, Sh
             l.emit();
         }
         std::printf("#stat trimmed_loads 2\n");
+    }
+    {   // the caller's stream is not in its default formatting state when the object is written (it was used for a report
+        // in fixed notation, for hexadecimal dumps, ...); the reader's stream is a fresh one.  The writers override the
+        // precision themselves: the saved object must not depend on the other formatting flags either.
+        struct Mode { const char * name; std::ios::fmtflags set, mask; };
+        static const Mode modes[] = {
+            {"fixed", std::ios::fixed, std::ios::floatfield}, {"scientific", std::ios::scientific, std::ios::floatfield},
+            {"hexfloat", std::ios::fixed | std::ios::scientific, std::ios::floatfield},
+            {"hex", std::ios::hex, std::ios::basefield}, {"oct", std::ios::oct, std::ios::basefield},
+            {"showpos_showpoint_uppercase", std::ios::showpos | std::ios::showpoint | std::ios::uppercase, std::ios::showpos | std::ios::showpoint | std::ios::uppercase},
+            {"precision3_left", std::ios::left, std::ios::adjustfield}};
+        Line l; l << "C17" << "fmt" << head << "|" << (size_t)(sizeof modes / sizeof modes[0]);
+        for (const Mode & m : modes) {
+            std::ostringstream o2; o2.setf(m.set, m.mask); o2.precision(3);
+            writeTo(o2, x);
+            bool restored = o2.flags() == ((std::ostringstream().flags() & ~m.mask) | m.set) && o2.precision() == 3;
+            T dest = cloneOf(d0);
+            int sig = loadInto(dest, o2.str());
+            l << m.name << (size_t)sig << (sig == 0 && bitsOf(dest) == bitsOf(x)) << restored;
+        }
+        l.emit();
+        std::printf("#stat stream_flag_modes %zu\n", sizeof modes / sizeof modes[0]);
     }
     {   // single-token corruptions
         auto toks = splitTokens(text);
@@ -420,11 +500,85 @@ template <class T> static void runByteCorruptions(const std::string & kind, Rng 
     std::printf("#stat byte_corruptions %zu\n", n);
 }
 
+// ------------------------------------------------------------------ consecutive objects in ONE stream
+// x (kind T), y (another kind U), x again are written one after the other and read back through one istringstream that
+// is never cleared.  Variant "none": the raw bytes; otherwise one token of the first / second / third object is
+// corrupted: the loads before it succeed, the hit one fails, and every later load (failbit is sticky) must fail too
+// with its destination untouched.  After an exception (setDiscount) the sequence stops: the stream is still good there.
+template <class V> static bool seqStep(std::vector<std::string> & out, std::istringstream & is, const std::string & src, V & dest, const V & saved, bool & allSaved) {
+    const std::string before = bitsOf(dest);
+    int sig = 0;
+    try { readFrom(is, dest); } catch (const std::exception &) { sig = 2; }
+    if (sig == 0 && is.fail()) sig = 1;
+    if (sig == 0) {
+        std::string rem;
+        if (!is.eof()) { auto p = is.tellg(); if (p >= 0) rem = src.substr((size_t)p); }
+        const std::string dump = exactOf(dest);
+        if (dump.find("inf") != std::string::npos || dump.find("nan") != std::string::npos) { out.push_back("N"); allSaved = false; return false; }
+        out.push_back("g"); out.push_back(hexOf(rem)); out.push_back(dump);
+        if (bitsOf(dest) != bitsOf(saved)) allSaved = false;
+        return true;
+    }
+    allSaved = false;
+    bool same = bitsOf(dest) == before;
+    out.push_back(sig == 1 ? (same ? "f" : "F") : (same ? "t" : "T"));
+    return sig != 2;
+}
+template <class T, class U> static void runSeq(const std::string & kindT, const std::string & kindU, Rng & rng, Shape sh, const T & x, const T & d0, int style) {
+    U y = Gen<U>::make(rng, sh, style), e0 = Gen<U>::make(rng, sh, (int)rng.below(2));
+    std::ostringstream o1, o2; writeTo(o1, x); writeTo(o2, y);
+    const std::string text = o1.str() + o2.str() + o1.str();
+    const auto toks = splitTokens(text);
+    const size_t nx = splitTokens(o1.str()).size(), ny = splitTokens(o2.str()).size();
+    for (int variant = 0; variant < 4; ++variant) {
+        size_t lo = variant == 1 ? 0 : variant == 2 ? nx : nx + ny, len = variant == 2 ? ny : nx;
+        if (variant > 0 && len == 0) continue;
+        size_t ci = 0; const char * lab = "none"; std::string t2 = text;
+        if (variant > 0) { ci = lo + rng.below(len); int c = (int)rng.below(kNCorr); lab = kCorr[c]; t2 = joinTokens(corruptTokens(toks, ci, c)); }
+        std::istringstream is(t2);
+        T a = cloneOf(d0); U b = cloneOf(e0); T c = cloneOf(d0);
+        std::vector<std::string> out; bool allSaved = true; size_t steps = 1;
+        if (seqStep(out, is, t2, a, x, allSaved)) { ++steps; if (seqStep(out, is, t2, b, y, allSaved)) { ++steps; seqStep(out, is, t2, c, x, allSaved); } }
+        Line l; l << "C17" << "seq" << (kindT + " " + std::to_string(sh.S) + " " + std::to_string(sh.A) + " " + std::to_string(sh.O)) << kindU << "|" << hexOf(text) << "|"
+                  << exactOf(x) << "|" << exactOf(y) << "|" << ci << lab << allSaved << steps;
+        for (auto & t : out) l << t;
+        l.emit();
+        std::printf("#stat seq_loads %zu\n#stat seq_variant:%s 1\n", steps, variant == 0 ? "clean" : variant == 1 ? "first" : variant == 2 ? "middle" : "last");
+    }
+}
+
+// ------------------------------------------------------------------ negative zero (the model's rationals have no -0: bits only)
+template <class T> static void rtBits(const std::string & kind, const T & x, const T & d0) {
+    std::ostringstream os; writeTo(os, x);
+    T dest = cloneOf(d0); std::string rem;
+    int sig = loadInto(dest, os.str() + "77", &rem);
+    Line l; l << "C17" << "rtbits" << kind << "|" << (size_t)sig << (sig == 0 && bitsOf(dest) == bitsOf(x)) << (sig == 0 && splitTokens(rem) == std::vector<std::string>{"77"});
+    l.emit();
+}
+static void negativeZeros() {
+    const double nz = -0.0;
+    {   M::Model x(2, 2), d0(2, 2); AI::Matrix2D R(2, 2); R << nz, 1.0, 5e-324, nz; x.setRewardFunction(R);
+        AI::Matrix3D T(2, AI::Matrix2D(2, 2)); T[0] << nz, 1.0, 1.0, nz; T[1] << 0.5, 0.5, nz, 1.0; x.setTransitionFunction(T);
+        rtBits("dmodel", x, d0); }
+    {   M::SparseModel x(2, 2), d0(2, 2); AI::SparseMatrix2D R(2, 2); R.insert(0, 1) = nz; R.insert(1, 0) = -5e-324; x.setRewardFunction(R);
+        AI::SparseMatrix3D T(2, AI::SparseMatrix2D(2, 2)); T[0].insert(0, 0) = nz; T[0].insert(0, 1) = 1.0; T[0].insert(1, 1) = 1.0; T[1].insert(0, 0) = 1.0; T[1].insert(1, 0) = 1.0;
+        x.setTransitionFunction(T); rtBits("smodel", x, d0); }
+    {   M::Experience x(2, 1), d0(2, 1); AI::Matrix2D R(2, 1); R << nz, -1.5; x.setRewardMatrix(R); AI::Matrix2D m2(2, 1); m2 << nz, 0.0; x.setM2Matrix(m2); rtBits("dexp", x, d0); }
+    {   M::SparseExperience x(2, 1), d0(2, 1); AI::SparseMatrix2D R(2, 1); R.insert(1, 0) = nz; x.setRewardMatrix(R); rtBits("sexp", x, d0); }
+    {   AI::Matrix2D m(2, 2); m << nz, 1.0, 1.0, nz; M::Policy x(m), d0(2, 2); rtBits("mpol", x, d0); }
+    {   auto vf = PO::makeValueFunction(2); M::Values v(2); v << nz, -5e-324; PO::VList vl; vl.push_back(PO::VEntry{v, 1, PO::VObs{0, 0}}); vf.push_back(vl);
+        PO::Policy x(2, 2, 2, vf), d0(2, 2, 2); rtBits("ppol", x, d0); }
+    {   AI::Vector x(3), d0(3); x << nz, 1.0, nz; d0.setZero(); rtBits("vec", x, d0); }
+    std::printf("#stat negative_zero_objects 7\n");
+}
+
 template <class T> static void runKind(const std::string & kind, Rng & rng, Shape sh, int style, const std::string & tier) {
     T x = Gen<T>::make(rng, sh, style);
     T d0 = Gen<T>::make(rng, sh, (int)rng.below(2));
     runObject(kind, rng, sh, x, d0, tier);
     runByteCorruptions(kind, rng, sh, x, d0, tier);
+    if (rng.coin()) runSeq<T, M::Experience>(kind, "dexp", rng, sh, x, d0, style);
+    else runSeq<T, PO::Policy>(kind, "ppol", rng, sh, x, d0, style);
     // semantically invalid input: the same text offered to destinations of other shapes (one more / one fewer state,
     // action, observation): every such load must be rejected or produce a valid object of the DESTINATION's shape
     std::ostringstream os; writeTo(os, x);
@@ -488,20 +642,35 @@ static void solverObjects(Rng & rng, const std::string & tier) {
     runObject("pss", rng, sh, sm, d2, tier);
 }
 
-static const int kWitnesses = 4;
-long verif::verif_ncases(const std::string & tier) { return kWitnesses + (tier == "thorough" ? 2200 : 220); }
+// finding C17-4: objects whose values need the default float notation / whose counts need base 10 (fmt lines)
+static void witnessStreamFlags(Rng & rng, const std::string & tier) {
+    {   M::Model x(2, 1), d0(2, 1); AI::Matrix2D R(2, 1); R << 1e-7 / 3, 1.0 / 3; x.setRewardFunction(R); x.setDiscount(0.9);
+        runObject("dmodel", rng, Shape{2, 1, 0}, x, d0, tier); }
+    {   M::Experience x(2, 1), d0(2, 1); for (int i = 0; i < 26; ++i) x.record(0, 0, 1, 1.0);
+        runObject("dexp", rng, Shape{2, 1, 0}, x, d0, tier); }
+    {   auto vf = PO::makeValueFunction(2); M::Values v(2); v << 1e-7 / 3, 4e-18; PO::VList vl;
+        for (size_t i = 0; i < 11; ++i) vl.push_back(PO::VEntry{v, 1, PO::VObs{0, 0}});
+        vf.push_back(vl); PO::VList v2; v2.push_back(PO::VEntry{v, 0, PO::VObs{10, 9}}); vf.push_back(v2);
+        PO::Policy x(2, 2, 2, vf), d0(2, 2, 2);
+        runObject("ppol", rng, Shape{2, 2, 2}, x, d0, tier); }
+}
+
+static const int kWitnesses = 6;
+long verif::verif_ncases(const std::string & tier) { return kWitnesses + (tier == "thorough" ? 1500 : 220); }
 
 void verif::verif_case(Rng & rng, long idx, const std::string & tier) {
     if (idx == 0) { witnessPolicyPrecision(rng, tier); return; }
     if (idx == 1) { witnessSparseCount(rng, tier); return; }
     if (idx == 2) { witnessCopiedPolicy(); return; }
     if (idx == 3) { solverObjects(rng, tier); return; }
+    if (idx == 4) { negativeZeros(); return; }
+    if (idx == 5) { witnessStreamFlags(rng, tier); return; }
     long k = (idx - kWitnesses) % 11;
     int style = (int)(((idx - kWitnesses) / 11) % 2);       // alternate dyadic / ugly
     Shape sh{(size_t)rng.range(1, 5), (size_t)rng.range(1, 3), (size_t)rng.range(1, 3)};
     if (tier == "thorough" && rng.coin(1, 6)) sh = Shape{(size_t)rng.range(4, 7), (size_t)rng.range(1, 4), (size_t)rng.range(1, 4)};
     std::printf("#stat style:%d 1\n", style);
-    g_good = g_fail = g_threw = 0;
+    g_good = g_fail = g_threw = g_exmode = g_nonfinite = 0;
     switch (k) {
         case 0: runKind<M::Model>("dmodel", rng, sh, style, tier); break;
         case 1: runKind<M::SparseModel>("smodel", rng, sh, style, tier); break;
@@ -515,7 +684,7 @@ void verif::verif_case(Rng & rng, long idx, const std::string & tier) {
         case 9: runKind<PO::SparseModel<M::Model>>("psd", rng, sh, style, tier); break;
         default: runKind<AI::Vector>("vec", rng, sh, style, tier); break;
     }
-    std::printf("#stat load_good %ld\n#stat load_failbit %ld\n#stat load_threw %ld\n", g_good, g_fail, g_threw);
+    std::printf("#stat load_good %ld\n#stat load_failbit %ld\n#stat load_threw %ld\n#stat loads_repeated_in_exception_mode %ld\n#stat loaded_nonfinite_not_judged %ld\n", g_good, g_fail, g_threw, g_exmode, g_nonfinite);
 }
 
 VERIF_MAIN
